@@ -281,11 +281,16 @@ theorem mergeSteps_nodup (cfg : Cfg) : ((mergeSteps cfg).map stepStream).Nodup :
   rcases cfg with ⟨chrs, mchrs, bchrs, genedb, rg, keepTmp, unmapped⟩
   cases genedb <;> cases rg <;> simp [mergeSteps, modelGrouped, ungroupedGlobal, groupedGlobal, stepStream]
 
-theorem mergeSteps_files (cfg : Cfg) (c : Chr) : ∀ st ∈ mergeSteps cfg, ∀ d ∈ stepFiles c st, d ∈ chrOutputs cfg c := by
+/-- no merge step works on the SQANTI-like table (it is merged by `sqMerge`) -/
+theorem mergeSteps_not_sq (cfg : Cfg) : ∀ st ∈ mergeSteps cfg, stepStream st ≠ .sq := by
   rcases cfg with ⟨chrs, mchrs, bchrs, genedb, rg, keepTmp, unmapped⟩
-  cases genedb <;> cases rg <;>
+  cases genedb <;> cases rg <;> simp [mergeSteps, modelGrouped, ungroupedGlobal, groupedGlobal, stepStream]
+
+theorem mergeSteps_files (cfg : Cfg) (c : Chr) : ∀ st ∈ mergeSteps cfg, ∀ d ∈ stepFiles c st, d ∈ chrOutputs cfg c := by
+  rcases cfg with ⟨chrs, mchrs, bchrs, genedb, rg, keepTmp, unmapped, fromSaves, sqanti, carried⟩
+  cases genedb <;> cases rg <;> cases sqanti <;>
     simp [mergeSteps, modelGrouped, ungroupedGlobal, groupedGlobal, stepFiles, chrOutputs, printerStreams, aggPrinters,
-      gffStreams, ungrouped, grouped]
+      gffStreams, sqStreams, ungrouped, grouped]
 
 theorem printer_parts (cfg : Cfg) (c : Chr) : ∀ s ∈ printerStreams cfg, Path.part s c ∈ chrOutputs cfg c := by
   intro s hs; simp only [chrOutputs, List.mem_append, List.mem_map]
@@ -295,11 +300,41 @@ theorem printer_parts (cfg : Cfg) (c : Chr) : ∀ s ∈ printerStreams cfg, Path
 theorem finalPaths_cases (cfg : Cfg) : ∀ p ∈ finalPaths cfg,
     (∃ s ∈ printerStreams cfg, p = .final s) ∨
       ((∃ st ∈ mergeSteps cfg, p ∈ stepFinals st) ∧ ∀ s ∈ printerStreams cfg, p ≠ .final s) := by
-  rcases cfg with ⟨chrs, mchrs, bchrs, genedb, rg, keepTmp, unmapped⟩
-  cases genedb <;> cases rg <;>
+  rcases cfg with ⟨chrs, mchrs, bchrs, genedb, rg, keepTmp, unmapped, fromSaves, sqanti, carried⟩
+  cases genedb <;> cases rg <;> cases sqanti <;>
     simp [finalPaths, mergeSteps, modelGrouped, ungroupedGlobal, groupedGlobal, stepFinals, printerStreams, aggPrinters,
-      gffStreams, ungrouped, grouped]
+      gffStreams, sqStreams, ungrouped, grouped]
 
+
+theorem sqMerge_events (cfg : Cfg) :
+    eventsOf (sqMerge cfg) = (sqStreams cfg).flatMap (fun s => Ev.create (.final s) :: cfg.mchrs.map (fun c => Ev.remove (.part s c))) := by
+  simp only [sqMerge, sqStreams]
+  split <;> simp [eventsOf_cons_ev, rmParts, eventsOf_rmAll, List.map_map, Function.comp_def, eventsOf]
+
+theorem sqMerge_mergeEv {cfg : Cfg} (wf : WF cfg) : ∀ e ∈ eventsOf (sqMerge cfg), MergeEv cfg e := by
+  rw [sqMerge_events]
+  intro e he
+  simp only [List.mem_flatMap, List.mem_cons, List.mem_map] at he
+  obtain ⟨s, _, rfl | ⟨c, hc, rfl⟩⟩ := he
+  · exact Or.inr rfl
+  · exact Or.inl ⟨s, c, (wf.m_iff c).mp hc, Or.inl rfl⟩
+
+theorem sqMerge_checks {cfg : Cfg} (wf : WF cfg) {fs : FS}
+    (h : cfg.sqanti = true → ∀ c ∈ cfg.chrs, fs.has (.part .sq c) = true) : ChecksOK (sqMerge cfg) fs := by
+  simp only [sqMerge, sqStreams]
+  split
+  · rename_i hq
+    simp only [List.flatMap_cons, List.flatMap_nil, List.append_nil]
+    show ChecksOK (rmParts cfg (Path.part .sq)) (apply fs (.create (.final .sq)))
+    apply checks_rmAll (nodup_map_inj wf.mnd (fun a b e => by injection e))
+    intro p hp; simp only [List.mem_map] at hp; obtain ⟨c, hc, rfl⟩ := hp
+    simp only [FS.has, apply]; rw [set_other _ _ (by simp [Ev.path])]
+    exact h hq c ((wf.m_iff c).mp hc)
+  · trivial
+
+theorem sq_part_mem (cfg : Cfg) (hq : cfg.sqanti = true) (c : Chr) : Path.part .sq c ∈ chrOutputs cfg c := by
+  apply printer_parts
+  simp [printerStreams, sqStreams, hq]
 
 theorem merge_stage {cfg : Cfg} (wf : WF cfg) {fs : FS} (h : J cfg fs)
     (hout : ∀ c ∈ cfg.chrs, ∀ d ∈ chrOutputs cfg c, fs.good d = true)
@@ -334,23 +369,28 @@ theorem merge_stage {cfg : Cfg} (wf : WF cfg) {fs : FS} (h : J cfg fs)
     | grouped s =>
       exact ⟨hall (Path.part s) (fun c => hfiles c _ (by simp [stepFiles])) cfg.mchrs (fun c hc => (wf.m_iff c).mp hc),
              hall (Path.partLin s) (fun c => hfiles c _ (by simp [stepFiles])) cfg.mchrs (fun c hc => (wf.m_iff c).mp hc)⟩
-  have hck : ChecksOK ((mergeSteps cfg).flatMap (stepActs cfg true fs) ++ evs S) fs := by
-    rw [checks_append]
-    refine ⟨steps_checks wf true fs _ (mergeSteps_nodup cfg) ?_, checks_evs _ _⟩
-    intro st hst c hc d hd
-    exact good_has (hout c hc d (mergeSteps_files cfg c st hst d hd))
-  have hev : eventsOf ((mergeSteps cfg).flatMap (stepActs cfg true fs) ++ evs S)
-      = eventsOf ((mergeSteps cfg).flatMap (stepActs cfg true fs)) ++ S := by
-    rw [eventsOf_append, eventsOf_evs]
-  have hmev : ∀ e ∈ eventsOf ((mergeSteps cfg).flatMap (stepActs cfg true fs)) ++ S, MergeEv cfg e := by
+  have hck : ChecksOK ((mergeSteps cfg).flatMap (stepActs cfg true fs) ++ sqMerge cfg ++ evs S) fs := by
+    rw [checks_append, checks_append]
+    refine ⟨⟨steps_checks wf true fs _ (mergeSteps_nodup cfg) ?_, sqMerge_checks wf ?_⟩, checks_evs _ _⟩
+    · intro st hst c hc d hd
+      exact good_has (hout c hc d (mergeSteps_files cfg c st hst d hd))
+    · intro hq c hc
+      simp only [FS.has]
+      rw [steps_frame cfg true fs (mergeSteps cfg) .sq (mergeSteps_not_sq cfg) (by simp [Tstep])]
+      exact good_has (hout c hc _ (sq_part_mem cfg hq c))
+  have hev : eventsOf ((mergeSteps cfg).flatMap (stepActs cfg true fs) ++ sqMerge cfg ++ evs S)
+      = (eventsOf ((mergeSteps cfg).flatMap (stepActs cfg true fs)) ++ eventsOf (sqMerge cfg)) ++ S := by
+    rw [eventsOf_append, eventsOf_append, eventsOf_evs]
+  have hmev : ∀ e ∈ (eventsOf ((mergeSteps cfg).flatMap (stepActs cfg true fs)) ++ eventsOf (sqMerge cfg)) ++ S, MergeEv cfg e := by
     intro e he
     simp only [List.mem_append] at he
-    rcases he with he | he
+    rcases he with (he | he) | he
     · rw [eventsOf_flatMap] at he; simp only [List.mem_flatMap] at he
       obtain ⟨st, _, he⟩ := he
       exact step_mergeEv wf true fs st e he
+    · exact sqMerge_mergeEv wf e he
     · subst hS; simp only [List.mem_map] at he; obtain ⟨s, _, rfl⟩ := he; exact Or.inr rfl
-  have hJ : AllP (J cfg) fs (eventsOf ((mergeSteps cfg).flatMap (stepActs cfg true fs)) ++ S) := by
+  have hJ : AllP (J cfg) fs ((eventsOf ((mergeSteps cfg).flatMap (stepActs cfg true fs)) ++ eventsOf (sqMerge cfg)) ++ S) := by
     apply allJ_body h
     · intro e he hp
       have := mergeEv_T (hmev e he); rw [hp] at this; simp [Tmerge] at this
@@ -372,8 +412,18 @@ theorem merge_stage {cfg : Cfg} (wf : WF cfg) {fs : FS} (h : J cfg fs)
     rcases finalPaths_cases cfg p hp with ⟨s, hs, rfl⟩ | ⟨⟨st, hst, hpst⟩, hnot⟩
     · subst hS; simp only [FS.good]; rw [applyAll_commit_mem (f := Path.final) hs]; rfl
     · simp only [FS.good]
-      rw [applyAll_untouched]
+      rw [applyAll_untouched, applyAll_append, applyAll_untouched]
       · exact steps_finals cfg true fs _ (mergeSteps_nodup cfg) htok fs st hst p hpst
+      · -- the SQANTI-like merge touches files of stream `sq` only
+        intro e he hpe
+        rw [sqMerge_events] at he
+        simp only [List.mem_flatMap, List.mem_cons, List.mem_map, sqStreams] at he
+        obtain ⟨s, hs, he⟩ := he
+        have hsq : s = .sq := by split at hs <;> simp_all
+        subst hsq
+        have hT := stepFinals_T hpst
+        have hne := mergeSteps_not_sq cfg st hst
+        rcases he with rfl | ⟨c, _, rfl⟩ <;> (simp only [Ev.path] at hpe; subst hpe; simp [Tstep] at hT; exact hne hT.symm)
       · subst hS; intro e he hpe; simp only [List.mem_map] at he; obtain ⟨s, hs, rfl⟩ := he
         exact hnot s hs hpe.symm
   · intro p hp
